@@ -246,7 +246,7 @@ func TestC13(t *testing.T) {
 		var c c13Case
 		c.Spec = progen.Draw(t, progen.Options{MinPkgs: 2, MaxPkgs: 4, MinFeats: 3, MaxFeats: 8, NoExit: true})
 		c.Spec.Args = nil
-		c.Cfg = configByName(rapid.SampledFrom([]string{"default", "seed", "tiny", "modonly"}).Draw(t, "cfg"), 0)
+		c.Cfg = configByName(rapid.SampledFrom([]string{"default", "seed", "seedlong", "tiny", "modonly"}).Draw(t, "cfg"), 0)
 		v, prog, labels, descs := c13Run(c)
 		kinds := map[string]bool{}
 		for _, d := range descs {
